@@ -140,6 +140,16 @@ CHECKS = {
         note="quick replays a seeded sample of the enumerated orders/lists, thorough all of them",
         technique="TLA+ spec + TLC exhaustive enumeration; replay; trace validation by TLC",
     ),
+    "C20": dict(
+        category="translation_validation",
+        text=("Per file written by the real writer (seeded record sequences incl. nil / empty, six payload families, four compression types) three "
+              "observers - native sequential reader, Kaitai-generated reader, independent framing walk - are compared by TLC (KaitaiTrace.tla) "
+              "against RecordIO.tla's StoredLen layout: same record count, nil flags, stored payload length and (after decompression) payload "
+              "bytes; the schema's compression enum parsed from recordio_v4.ksy and the generated constants must carry the writer's codes."),
+        design_ref="§5 C20",
+        note="thin use of TLA+ (one layout function); the Kaitai payload is compared after decompressing it with the repository's compressor",
+        technique="translation validation of three decoders against the TLA+ layout function, judged by TLC",
+    ),
     "C05": dict(
         category="model_checking",
         text=("SimpleDB.tla with 2 clients, two-step Get, database lock, unbuffered hand-off, flusher and compactor is model-checked over all "
